@@ -3,8 +3,9 @@ import FunsorVerif.Core.Sexp
 import FunsorVerif.Core.XR
 import FunsorVerif.Core.Semiring
 import FunsorVerif.Model.C10
+import FunsorVerif.Model.C10.Sarkka
 namespace FV.Drv.C10
-open FV FV.C10
+open FV FV.C10 FV.C10.SB
 
 def showRes : Option Mat → String
   | some m => "ok " ++ toString (Mat.toSexp m)
@@ -14,15 +15,80 @@ def parseMats (s : Sexp) : Option (List Mat) := do
   let xs ← s.asList?
   xs.mapM Mat.ofSexp?
 
+def showNats (ns : List Nat) : Sexp := Sexp.ofNats ns
+def showPairs (ps : List (Nat × Nat)) : Sexp := Sexp.list (ps.map fun (a, b) => Sexp.ofNats [a, b])
+
+def parsePairs (s : Sexp) : Option (List (String × String)) := do
+  let xs ← s.asList?
+  xs.mapM fun p => do
+    let ab ← p.asStrs?
+    match ab with
+    | [a, b] => some (a, b)
+    | _ => none
+
+def prodKind? : String → Option ProdKind
+  | "add" => some .add
+  | "mul" => some .mul
+  | "other" => some .other
+  | _ => none
+
 /--
   C10 fold  SR (M…)        left-to-right fold (the oracle)
   C10 naive SR (M…)        naive_sequential_sum_product
   C10 scan  SR (M…)        sequential_sum_product (index-level rounds)
   C10 mixed SR K (M…)      mixed_sequential_sum_product, num_segments = K
   C10 scanconst SR D M     time-independent transition, duration D
+  C10 sarkka SR P NP (M…)  sarkka_bilmes_product on the window chain, period P, num_periods NP
+  C10 naivesarkka SR (M…)  naive_sarkka_bilmes_product on the window chain
+  C10 sbwin SR S K P NP (TAB…)   sarkka / naive / fold from factor tables tab[cur][window], projected
+  C10 sbplan T (shift…)    period, lags, block slices, block shifts, block_step, final sum shifts, result shifts
+  C10 getshift "name"      _get_shift
+  C10 shiftname "name" t   _shift_name
+  C10 eager SR KIND HASSTEP T (seq (M…)) | (const M)     eager_markov_product
+  C10 mpinputs "time" ("in"…) (("k" "v")…) (("from" "to")…)   MarkovProduct inputs after eager_subs renaming
 -/
 def handle (args : List Sexp) : String :=
   match args with
+  | [Sexp.atom "sbplan", t, shifts] =>
+    match t.asNat?, shifts.asNats? with
+    | some T, some shifts =>
+      let lags := lagsOf shifts
+      match period lags with
+      | none => "ok nolags"
+      | some p =>
+        let bs := blockShifts p lags
+        "ok " ++ toString (Sexp.list [showNats [p], showNats lags,
+          Sexp.list ((blockSlices (T - T % p) p).map showNats), showNats ((List.range p).map (blockShift p)),
+          showPairs (blockStep p bs), showNats (finalSumShifts p), showNats (resultShifts T lags)])
+    | _, _ => "err bad-args"
+  | [Sexp.atom "getshift", nm] =>
+    match nm.asStr? with
+    | some s => "ok " ++ toString (getShiftS s.toList)
+    | none => "err bad-args"
+  | [Sexp.atom "shiftname", nm, t] =>
+    match nm.asStr?, t.asInt? with
+    | some s, some t => "ok \"" ++ String.ofList (shiftNameS s.toList t) ++ "\""
+    | _, _ => "err bad-args"
+  | [Sexp.atom "mpinputs", time, ins, sn, rn] =>
+    match time.asStr?, ins.asStrs?, parsePairs sn, parsePairs rn with
+    | some time, some ins, some sn, some rn =>
+      "ok " ++ toString (Sexp.list ((markovInputs (renameStepNames rn sn) time ins).map Sexp.str))
+    | _, _, _, _ => "err bad-args"
+  | [Sexp.atom "eager", Sexp.atom srn, Sexp.atom kind, hs, t, tr] =>
+    match SR.ofName? srn, prodKind? kind, hs.asBool?, t.asNat? with
+    | some sr, some kind, some hs, some T =>
+      let go (tr : Trans Mat) := showRes (markovEager (Mat.mul sr) matScale matPow kind hs T tr)
+      match tr with
+      | Sexp.list [Sexp.atom "seq", ms] =>
+        match parseMats ms with
+        | some mats => go (.seq mats)
+        | none => "err bad-mats"
+      | Sexp.list [Sexp.atom "const", m] =>
+        match Mat.ofSexp? m with
+        | some m => go (.const m)
+        | none => "err bad-mat"
+      | _ => "err bad-trans"
+    | _, _, _, _ => "err bad-args"
   | [Sexp.atom cmd, Sexp.atom srn, ms] =>
     match SR.ofName? srn, parseMats ms with
     | some sr, some mats =>
@@ -32,12 +98,28 @@ def handle (args : List Sexp) : String :=
       | "naive" => showRes (naive f mats)
       | "scan" => showRes (scanIdx f (mats.length + 1) mats)
       | "scanstruct" => showRes (scan f mats)
+      | "naivesarkka" => showRes (naiveSarkka f mats)
       | _ => "err bad-cmd"
     | _, _ => "err bad-args"
   | [Sexp.atom "mixed", Sexp.atom srn, k, ms] =>
     match SR.ofName? srn, k.asNat?, parseMats ms with
     | some sr, some k, some mats => showRes (mixed (Mat.mul sr) k 2 mats)
     | _, _, _ => "err bad-args"
+  | [Sexp.atom "sarkka", Sexp.atom srn, p, np, ms] =>
+    match SR.ofName? srn, p.asNat?, np.asNat?, parseMats ms with
+    | some sr, some p, some np, some mats => showRes (sarkka (Mat.mul sr) p np 2 mats)
+    | _, _, _, _ => "err bad-args"
+  | [Sexp.atom "sbwin", Sexp.atom srn, s, k, p, np, tabs] =>
+    -- whole pipeline from factor tables: window matrices → sarkka / naive / fold → final projection
+    match SR.ofName? srn, s.asNat?, k.asNat?, p.asNat?, np.asNat?, parseMats tabs with
+    | some sr, some S, some k, some p, some np, some tabs =>
+      let mats := tabs.map fun tab => windowMat S k sr.zero (facOfTable S tab)
+      let f := Mat.mul sr
+      let sh (r : Option Mat) : Sexp := match r with
+        | some m => Mat.toSexp (projectFinal sr S k m)
+        | none => Sexp.atom "declined"
+      "ok " ++ toString (Sexp.list [sh (sarkka f p np 2 mats), sh (naiveSarkka f mats), sh (fold1 f mats)])
+    | _, _, _, _, _, _ => "err bad-args"
   | [Sexp.atom "scanconst", Sexp.atom srn, d, m] =>
     match SR.ofName? srn, d.asNat?, Mat.ofSexp? m with
     | some sr, some d, some m => showRes (scanConst (Mat.mul sr) m (d + 1) d)
